@@ -6,9 +6,28 @@ PROP = "C10"
 FLAGQ = ["num_qubits", "num_clbits", "has_measurements", "has_barriers"]
 
 
+def flag_shape_programs():
+    """a measurement / barrier in every kind of container, after every kind of block that does not hold one"""
+    pre = 'OPENQASM 3.0;\ninclude "stdgates.inc";\nqubit[3] q;\nbit[3] c;\nint[8] sw = 1;\nh q[0];\n'
+    targets = {"measure": "c[0] = measure q[0];", "barrier": "barrier q[1];"}
+    containers = ["%s", "if (sw == 1) { %s }", "if (sw == 2) { x q[2]; } else { %s }", "for int i in [0:1] { %s }",
+                  "switch (sw) { case 1 { %s } default { x q[2]; } }", "switch (sw) { case 5 { x q[2]; } default { %s } }",
+                  "for int i in [0:1] { if (i == 0) { %s } }", "switch (sw) { case 1 { for int j in [0:0] { %s } } default { x q[2]; } }",
+                  "for int i in [0:0] { switch (sw) { case 1 { %s } default { x q[2]; } } }"]
+    out = []
+    for kind, t in targets.items():
+        other = targets["barrier" if kind == "measure" else "measure"].replace("q[0]", "q[2]").replace("c[0]", "c[2]")
+        decoys = ["", "if (sw == 1) { x q[2]; }", "for int k in [0:1] { x q[2]; }", "switch (sw) { case 1 { x q[2]; } default { y q[2]; } }",
+                  "switch (sw) { case 1 { %s } default { y q[2]; } }" % other]
+        for cont in containers:
+            for d in decoys:
+                out.append(pre + (d + "\n" if d else "") + (cont % t) + "\nx q[1];\n")
+    return out
+
+
 def make_cases(rnd, tier, progs):
-    n = 220 if tier == "quick" else 3000
-    ps = progs(40 if tier == "quick" else 200)
+    n = 330 if tier == "quick" else 3000
+    ps = progs(40 if tier == "quick" else 200) + flag_shape_programs()
     out = []
     for k in range(n):
         src = ps[k % len(ps)]
@@ -28,7 +47,7 @@ def make_cases(rnd, tier, progs):
                 body.append((i, rnd.choice(["validate", "unroll", "depth", "dumps"])))
             body.append((rnd.randrange(nmod), rnd.choice(FLAGQ)))
         hist, nobs = modcheck.hist_with_obs(rnd, body, nmod)
-        out.append(dict(src=src, hist=hist, nobs=nobs, family="flags-around-transformations"))
+        out.append(dict(src=src, hist=hist, nobs=nobs, family="flags-around-transformations" if "int[8] sw = 1;\nh q[0];" not in src else "flags-in-every-container"))
     return out
 
 
